@@ -88,6 +88,7 @@ type c16World struct {
 	members  []c16Member
 	sends    map[string]c16Send
 	brackets []c16Bracket
+	disc     sync.Map // connection id -> its disconnect handler has run
 	nextMsg  atomic.Int64
 	maxConn  int
 	maxRoom  int
@@ -212,6 +213,7 @@ func c16Round(w *mon.W, round int) {
 		_ = x.hub.GetRoomManager().GetRoomNames()
 		_ = c.GetRooms()
 		w.Count("hub_queries_from_disconnect_handlers", 1)
+		x.disc.Store(c.ID, true) // the hub has finished unregistering c (handlers run last)
 		return nil
 	})
 	// handlers that act from inside the hub loop (this is where compiled `on message` blocks run)
@@ -671,10 +673,12 @@ func (x *c16World) churn(rng *rand.Rand, wit func(map[string]interface{}) map[st
 		gate.Store(true)
 		wg.Wait()
 		ws.Close()
-		// bounded wait until the hub has unregistered the connection
+		// bounded wait until the hub has unregistered the connection *completely*: its disconnect handler (the last
+		// step of the unregistration) has run. The registry losing the id is only the first step, and the marker
+		// broadcast below proves nothing when no other client is alive to receive it.
 		gone := false
-		for i := 0; i < 2000; i++ {
-			if _, ok := x.hub.GetConnection(sc.ID); !ok {
+		for i := 0; i < 10000; i++ {
+			if _, done := x.disc.Load(sc.ID); done {
 				gone = true
 				break
 			}
@@ -683,8 +687,9 @@ func (x *c16World) churn(rng *rand.Rand, wit func(map[string]interface{}) map[st
 		x.ops.Add(2)
 		x.w.Count("churn_join_vs_disconnect_races", 1)
 		if !gone {
-			x.w.Inconclusive("C16 churn: the hub did not unregister a closed connection within 2 s")
-			return
+			// never registered (hub full) or still on its way after 10 s: not judged
+			x.w.Count("churn_connections_not_judged", 1)
+			continue
 		}
 		pending = append(pending, churned{sc, room, serverSide})
 	}
